@@ -24,6 +24,9 @@ TECHNIQUE = "Lean 4 structural induction over quantity expressions, generic in t
 
 def check(ctx):
     qty_common.run(ctx, "C03")
+    # units keep their meaning in a session whose variables are named like them (also like PREFIXED spellings)
+    import namespace_common
+    namespace_common.run(ctx, "ns")
     # ---- chains of two comparisons: if ANY link compares operands of different dimension there is no value — whichever link a
     # lazy evaluation would look at first, and whether that link is true or false
     import itertools
